@@ -11,6 +11,7 @@ and emit-by-names as the grouping it stands for.
 -/
 import MillerModel.Model.DSL
 import MillerModel.Gen.Grammar
+import MillerModel.Lemmas.C14Interp
 namespace Miller
 namespace Props.C14
 open DSL
@@ -346,6 +347,36 @@ theorem emit_by_two_names (a b name : Bytes) (m : List (Bytes × Fields))
   have han' : (a == name) = false := by simpa using han
   have hbn' : (b == name) = false := by simpa using hbn
   simp [mput, hab', han', hbn']
+
+/-! ### the whole interpreter: frames are balanced over every construct
+
+One induction on the fuel over all 25 mutually recursive functions of the interpreter
+(`Lemmas/C14Interp.lean`, `allPres`).  `runM m s` is the pair (outcome, final state) of running `m`
+from state `s`; the outcome may be a value, a break/continue/return signal, or ANY error. -/
+
+/-- Whatever a statement does and however it ends, the stack has as many frames afterwards as
+before: nothing a block, loop or call pushed survives it. For every program, statement, state and fuel. -/
+theorem frames_balanced_over_every_statement (p : Prog) (fuel : Nat) (st : Stmt) (s : St) :
+    (runM (exec p fuel st) s).2.stack.length = s.stack.length :=
+  (allPres p fuel).exec st s
+
+/-- ... in particular over a braced block: the frame holding the block's own declarations is gone when
+the block ends, on every exit (fall-through, break, continue, return, error). -/
+theorem block_locals_do_not_outlive_the_block (p : Prog) (fuel : Nat) (body : List Stmt) (s : St) :
+    (runM (execBlock p fuel body) s).2.stack.length = s.stack.length :=
+  (allPres p fuel).execBlock body s
+
+/-- ... and over expression evaluation, user-function calls and higher-order functions included. -/
+theorem frames_balanced_over_every_expression (p : Prog) (fuel : Nat) (e : Expr) (s : St) :
+    (runM (eval p fuel e) s).2.stack.length = s.stack.length :=
+  (allPres p fuel).eval e s
+
+/-- BY VALUE, FENCED: whatever the body of a named function or subroutine does - assign its
+parameters, declare locals, recurse, fail - the caller's frames come back exactly as they were: same
+variables, same types, same values. (`inCall false` is how `callFn` and `call` run a named body.) -/
+theorem named_call_leaves_the_callers_locals_alone (frame : Frame) (body : M Sig) (s : St) :
+    (runM (inCall false frame body) s).2.stack = s.stack :=
+  inCall_named_restores frame body s
 
 /-- Non-vacuity: the premises above are met by ordinary states. -/
 example : ∃ st', Stack.define ([] :: [[{ name := "x", ty := .int, val := vint 1 }]]) "x" .str (vstr [97]) = .ok st' ∧
